@@ -2,3 +2,5 @@ import MirGen.Tables
 import MirGen.Signatures
 import MirGen.EvalPrograms
 import MirGen.Effects
+import MirGen.ChordRe
+import MirGen.Scalars
